@@ -11,7 +11,7 @@ HOOK_COMMIT = "3c473f8"
 CLAIMED = {
   "C01": ("model_checking", "E-BFS",
           "explicit-state BFS to fixpoint over the real Orders / EngineState order-tracking code",
-          "Every reachable order-tracking state for 2-3 concurrent client order ids (all 10 exchange-consistent fill timelines per id) is enumerated to fixpoint, on the Orders table directly and through EngineState::update_from_account / the in-flight recorder over 3 instruments on 2 exchanges; every transition executes the real code and is compared with the allowed-successor set the statement gives for (tracked state, input); all inputs (duplicates, stale, out-of-order, full snapshots) are offered in every state.",
+          "Every reachable order-tracking state for 2-3 concurrent client order ids (all 10 exchange-consistent fill timelines per id) is enumerated to fixpoint, on the Orders table directly and through EngineState::update_from_account / the in-flight recorder over 3 instruments on 2 exchanges; every transition executes the real code and is compared with the allowed-successor set the statement gives for (tracked state, input); all inputs (duplicates, stale, out-of-order, full snapshots) are offered in every state. Hardened: sub-second instants, fractional fills, three failure classes, batch recorders, snapshots spanning instruments, and the same alphabet through Engine::process.",
           "Unique client order ids; exchange reports of one order follow a timeline with non-decreasing fill level (late/duplicate/out-of-order delivery unrestricted); timestamps in {1,2,3}, fill levels in {0, half, full}.",
           "DESIGN.md §3 C01"),
   "C02": ("exploration", "E-SEQ",
@@ -21,12 +21,12 @@ CLAIMED = {
           "DESIGN.md §3 C02"),
   "C03": ("model_checking", "E-BFS",
           "depth-bounded explicit-state BFS over the real Engine::process with scripted strategy/risk/links",
-          "Every engine event history up to the tier's depth over (market/account items, trading-state toggles, the four commands, shutdown) x strategy output menu x risk verdict x per-step link fault mode (healthy / closed / missing / unhealthy / out-of-range index) is executed through the real Engine::process; after every tick: sent => delivered exactly once on the named link and in flight; failed => error class per link kind, no delivery, no mark, fatal => terminal; refused => reported, not delivered, no mark; disabled => nothing strategy-generated is issued while commands and state updates still happen (differential against an enabled idle engine); enabling event generates.",
+          "Every engine event history up to the tier's depth over (market/account items, trading-state toggles, the four commands, shutdown) x strategy output menu x risk verdict x per-step link fault mode (healthy / closed / missing / unhealthy / out-of-range index) is executed through the real Engine::process; after every tick: sent => delivered exactly once on the named link and in flight; failed => error class per link kind, no delivery, no mark, fatal => terminal; refused => reported, not delivered, no mark; disabled => nothing strategy-generated is issued while commands and state updates still happen (differential against an enabled idle engine); enabling event generates. Hardened: close-position strategies that cancel, real UnboundedTx links, reconnect / snapshot / cancel-response probe events, cid reuse across instruments, one-exchange configurations, exactly-once across ticks.",
           "2-3 exchanges, at most 2-3 simultaneously tracked orders from an id pool, history depth 4 (quick) / 4-6 (thorough); strategy/risk are environment menus; reconnect notices and balance snapshots are not in this alphabet (C14/C09 cover them).",
           "DESIGN.md §3 C03"),
   "C04": ("exploration", "E-SEQ",
           "exhaustive configuration sweep of index<->name translation + manual-poll ExecutionManager runs",
-          "For every insertion order of every subset (<=5 quick / <=8 thorough) of an 8-definition menu over 3 exchanges with shared asset names: every exchange's ExecutionInstrumentMap x every global index (own, foreign, out of range) and every pooled name; AccountEventIndexer outbound and all inbound event kinds; the request a recording ExecutionClient receives behind the real ExecutionManager::run (paused runtime, manual polling); account stream indexing; application through EngineState::update_from_account. Ground truth is computed from the definitions.",
+          "For every insertion order of every subset (<=5 quick / <=8 thorough) of an 8-definition menu over 3 exchanges with shared asset names: every exchange's ExecutionInstrumentMap x every global index (own, foreign, out of range) and every pooled name; AccountEventIndexer outbound and all inbound event kinds; the request a recording ExecutionClient receives behind the real ExecutionManager::run (paused runtime, manual polling); account stream indexing; application through EngineState::update_from_account. Ground truth is computed from the definitions. Hardened: two requests per manager with cid reuse, a case/prefix-colliding menu, disagreeing exchange ids inside snapshots, re-ordered client snapshots, full snapshots applied to engine state.",
           "One 8-definition menu over BinanceSpot/Kraken/Okx; instrument internal names unique; an exchange names an asset one way; manager layer uses immediate replies only (timeouts are C07).",
           "DESIGN.md §3 C04"),
   "C05": ("model_checking", "E-BFS",
@@ -36,22 +36,22 @@ CLAIMED = {
           "DESIGN.md §3 C05"),
   "C06": ("exploration", "E-SEQ",
           "bounded-exhaustive delivery sequences through the real Binance spot/futures L2 transformers against a venue-rule monitor",
-          "For simulated venue evolutions (5-6 atomic changes, every composition into updates, every snapshot point, two instruments on one connection, consecutive and stride-2 ids): every delivery sequence of length <=6 (quick) / <=7 (thorough) of the resulting updates (drop, duplicate, swap, replay, early/late start) goes through the real transformers obtained from ExchangeTransformer::init (venue JSON through the real deserialisers), every Ok event is applied to a real OrderBook, the connection stops at the first terminal error; the admitted updates must form the published chain, the local book must equal the venue book at its reported sequence, every break must be a terminal error, in-order delivery after older messages must never error.",
+          "For simulated venue evolutions (5-6 atomic changes, every composition into updates, every snapshot point, two instruments on one connection, consecutive and stride-2 ids): every delivery sequence of length <=6 (quick) / <=7 (thorough) of the resulting updates (drop, duplicate, swap, replay, early/late start) goes through the real transformers obtained from ExchangeTransformer::init (venue JSON through the real deserialisers), every Ok event is applied to a real OrderBook, the connection stops at the first terminal error; the admitted updates must form the published chain, the local book must equal the venue book at its reported sequence, every break must be a terminal error, in-order delivery after older messages must never error. Hardened: level-less updates, ids across 2^32, a loopback layer running the real ExchangeWsStream::init (spot and futures) and init_market_stream re-initialisation against a scripted venue (cfg hook).",
           "Three fixed venue scripts; the buffering/ordering inside ExchangeWsStream::init (needs a live socket) is not exercised.",
           "DESIGN.md §3 C06"),
   "C07": ("exploration", "E-ENV",
           "exhaustive schedule enumeration of the real ExecutionManager::run under virtual time (manual polling, scripted client)",
-          "All schedules of hand-over / answer (Ok, Err, fully filled) / clock-advance choices for batches of up to 3 (quick) / 4 (thorough, <=4 deviations) open and cancel requests with answers before, exactly at and after the timeout or never, in every arrival order, ended by shutdown or channel close; after a +2T horizon every accepted request must have exactly one answer of the class the statement prescribes (either at the exact deadline), correctly attributed; no event for unrequested ids.",
+          "All schedules of hand-over / answer (Ok, Err, fully filled) / clock-advance choices for batches of up to 3 (quick) / 4 (thorough, <=4 deviations) open and cancel requests with answers before, exactly at and after the timeout or never, in every arrival order, ended by shutdown or channel close; after a +2T horizon every accepted request must have exactly one answer of the class the statement prescribes (either at the exact deadline), correctly attributed; no event for unrequested ids. Hardened: repeated (kind, cid) requests, 1..100 (255) requests outstanding together, the whole ExecutionBuilder::add_live path, partial fills, long timeouts.",
           "select!'s per-iteration random start branch is not enumerated (it can only permute the order of simultaneously ready branches; the oracle ignores order); instants from a fixed grid around T; n=4 bounded to 4 deviations.",
           "DESIGN.md §3 C07"),
   "C08": ("exploration", "E-SEQ",
           "bounded-exhaustive request sequences on the real MockExchange + schedule enumeration through MockExecution/MockExchange::run",
-          "All sequences of <=3 (quick) / <=4 (thorough) order requests (side x price x quantity x 3 asset-sharing instruments, limit and unknown-instrument orders) against 54/128 balance-fee configurations on MockExchange::open_order with the ledger read back after every step; plus all operation/latency schedules of up to 3/4 client operations through the real MockExecution client and MockExchange::run on a paused runtime (responses, notifications, queries) against a ledger model written from the statement.",
+          "All sequences of <=3 (quick) / <=4 (thorough) order requests (side x price x quantity x 3 asset-sharing instruments, limit and unknown-instrument orders) against 54/128 balance-fee configurations on MockExchange::open_order with the ledger read back after every step; plus all operation/latency schedules of up to 3/4 client operations through the real MockExecution client and MockExchange::run on a paused runtime (responses, notifications, queries) against a ledger model written from the statement. Hardened: the ExecutionBuilder::add_mock path, time-in-force variants, 150-600 order runs with full trade queries, many-decimal amounts.",
           "Market orders only are accepted by the mock; the ledger model follows the statement (spent asset debited, nothing else changes); ids need only be fresh and increasing.",
           "DESIGN.md §3 C08"),
   "C10": ("exploration", "E-SEQ",
           "bounded-exhaustive engine event histories through the real sync/async audit runners, a twin engine and the real StateReplicaManager, plus derived fault streams",
-          "Every engine-event history up to length 3-4 (quick) / 4-5 (thorough) over a 40-symbol alphabet (market, account, reconnect notices, trading-state updates, the four commands, shutdown) in 5-7 engine worlds (quiet / order-issuing strategy, healthy / terminated / missing / unhealthy links, different starting sequences) is run from scratch through sync_run_with_audit, async_run_with_audit (manual polling, all batching schedules up to length 2/3) and a twin engine stepped with process_with_audit; one record per event carrying it, consecutive sequences after the snapshot, final record kind; the recorded stream drives the real StateReplicaManager tick by tick (replica == engine on every component, orders modulo in-flight markers) and every drop / duplicate / swap fault stream (never applied silently). A deduplicating BFS to depth 4/6 extends the reach.",
+          "Every engine-event history up to length 3-4 (quick) / 4-5 (thorough) over a 40-symbol alphabet (market, account, reconnect notices, trading-state updates, the four commands, shutdown) in 5-7 engine worlds (quiet / order-issuing strategy, healthy / terminated / missing / unhealthy links, different starting sequences) is run from scratch through sync_run_with_audit, async_run_with_audit (manual polling, all batching schedules up to length 2/3) and a twin engine stepped with process_with_audit; one record per event carrying it, consecutive sequences after the snapshot, final record kind; the recorded stream drives the real StateReplicaManager tick by tick (replica == engine on every component, orders modulo in-flight markers) and every drop / duplicate / swap fault stream (never applied silently). A deduplicating BFS to depth 4/6 extends the reach. Hardened: the real SystemBuild::init path in both feed modes with three endings; reports at equal exchange times; a report whose terms differ from the request (open known finding).",
           "Default instrument / global data types; orders compared after projecting in-flight markers as DESIGN §3 C10 says; one fault per fault stream.",
           "DESIGN.md §3 C10"),
   "C11": ("exploration", "E-SEQ",
@@ -61,12 +61,12 @@ CLAIMED = {
           "DESIGN.md §3 C11"),
   "C12": ("exploration", "E-ENV",
           "exhaustive connection-script / backoff-policy / timing enumeration of the real reconnecting stream composition under virtual time + all interleavings of merge and forward_to",
-          "Every connection script (attempt = fail | ok(word over item / recoverable error / terminal error)) within the tier's blocks (112k quick / 3.3M thorough scripts) x 4-6 backoff policies x 3-5 timings x 5 observation modes runs the real init_reconnecting_stream -> with_reconnect_backoff -> with_termination_on_error -> with_reconnection_events (+ error handler, + forward_to, + the merged composition ExecutionManager::init uses) polled by hand on a paused runtime with every output stamped; delivery, single notice per drop, handler calls, exact backoff waits, reset after success and never-ends are compared with the script. merge and forward_to: all interleavings of push/close/poll up to depth 9/11 and 10/12.",
+          "Every connection script (attempt = fail | ok(word over item / recoverable error / terminal error)) within the tier's blocks (112k quick / 3.3M thorough scripts) x 4-6 backoff policies x 3-5 timings x 5 observation modes runs the real init_reconnecting_stream -> with_reconnect_backoff -> with_termination_on_error -> with_reconnection_events (+ error handler, + forward_to, + the merged composition ExecutionManager::init uses) polled by hand on a paused runtime with every output stamped; delivery, single notice per drop, handler calls, exact backoff waits, reset after success and never-ends are compared with the script. merge and forward_to: all interleavings of push/close/poll up to depth 9/11 and 10/12. Hardened: hundreds of consecutive failures / connections / symbols, the real init_market_stream for a scripted venue, wake-up of pending consumers in merge and forward_to.",
           "Init latency and pacing uniform within a case; every connection ends; policies with initial <= max and multiplier >= 1.",
           "DESIGN.md §3 C12"),
   "C13": ("exploration", "E-SEQ",
           "exhaustive sweep of (connector, kind) x instrument flavour x instrument sets x synthesised venue payloads through the real mapper and transformers",
-          "For all 21 (connector, kind) arms of DynamicStreams::init and 4 instrument flavours: every ordered instrument set up to the tier's size from per-venue menus goes through the real WebSocketSubMapper::map, the connector's real transformer (ExchangeTransformer::init) and serde_json + transform for 2-3 payloads per market of the venue universe (subscribed or not); subscribed => exactly the payload's events with the subscribed key, the connector id and the payload's values; unsubscribed => unidentifiable error, never an event. Bitfinex runs its real subscription validator against a scripted venue on loopback.",
+          "For all 21 (connector, kind) arms of DynamicStreams::init and 4 instrument flavours: every ordered instrument set up to the tier's size from per-venue menus goes through the real WebSocketSubMapper::map, the connector's real transformer (ExchangeTransformer::init) and serde_json + transform for 2-3 payloads per market of the venue universe (subscribed or not); subscribed => exactly the payload's events with the subscribed key, the connector id and the payload's values; unsubscribed => unidentifiable error, never an event. Bitfinex runs its real subscription validator against a scripted venue on loopback. Hardened: subscriptions indexed by the real indexer, the DynamicStreams validation front end, L1 update time, non-dyadic values, the DataKind conversion, scaled option strikes, expiry instants late / early in the UTC day.",
           "Payload templates follow the venue formats quoted in the connectors' doc comments / test fixtures; name_exchange is the venue's spelling; Gate.io options payload modelled on futures; loopback TCP available.",
           "DESIGN.md §3 C13"),
   "C15": ("exploration", "E-SEQ",
@@ -76,7 +76,7 @@ CLAIMED = {
           "DESIGN.md §3 C15"),
   "C16": ("exploration", "E-SEQ",
           "bounded-exhaustive sequences of closed positions / fill round-trips through TearSheetGenerator and the engine's trading summary",
-          "All sequences (<=4/<=5) of 24 closed-position symbols into TearSheetGenerator and (<=3/<=4) of 36 fill/balance symbols through EngineState::update_from_account over 3 instruments / 2 exchanges; after every prefix pnl, win rate and profit factor are recomputed in batch from the positions (documented conventions accepted), and every trading-summary entry must equal the sheet of a fresh generator fed only that instrument's/asset's history.",
+          "All sequences (<=4/<=5) of 24 closed-position symbols into TearSheetGenerator and (<=3/<=4) of 36 fill/balance symbols through EngineState::update_from_account over 3 instruments / 2 exchanges; after every prefix pnl, win rate and profit factor are recomputed in batch from the positions (documented conventions accepted), and every trading-summary entry must equal the sheet of a fresh generator fed only that instrument's/asset's history. Hardened: incremental TradingSummaryGenerator updates with times in any order and both key types, in-place generation, full snapshots and seeded balances, printed tables, 150-600 position walks.",
           "Period-scaled ratios (Sharpe, Sortino, Calmar, rate of return) are not compared (the statement does not fix the window).",
           "DESIGN.md §3 C16"),
   "C17": ("exploration", "E-SEQ",
@@ -91,12 +91,12 @@ CLAIMED = {
           "DESIGN.md §3 C18"),
   "C19": ("exploration", "E-SEQ",
           "exhaustive sweep of reached engine states x 55 filters x command trees through the real Engine::process",
-          "For 2,040 (quick) / 40,176 (thorough) engine configurations over 4 instruments / 2 exchanges / 3 underlyings - reached by feeding events (order requests, snapshots, cancels, fills, prices) - every filter (none, all subsets of exchanges / instruments / underlyings, decoys) and every 2-command tree of CancelOrders / ClosePositions: delivered requests, in-flight marks and the bit-identity of everything outside the filter are compared with a definition-level scope predicate.",
+          "For 2,040 (quick) / 40,176 (thorough) engine configurations over 4 instruments / 2 exchanges / 3 underlyings - reached by feeding events (order requests, snapshots, cancels, fills, prices) - every filter (none, all subsets of exchanges / instruments / underlyings, decoys) and every 2-command tree of CancelOrders / ClosePositions: delivered requests, in-flight marks and the bit-identity of everything outside the filter are compared with a definition-level scope predicate. Hardened: link faults on the first command, filters naming an entry twice, non-integer sizes, commands with trading enabled.",
           "Links healthy; only side and quantity of close orders are demanded (as the statement says); command trees of length 2.",
           "DESIGN.md §3 C19"),
   "C20": ("exploration", "E-ENV",
           "exhaustive sweep of datasets x pacings x strategy assignments through the real backtest()/run_backtests() on a paused single-thread runtime",
-          "Every dataset pattern of n<=3 (quick) / <=4 (thorough) events over 2 instruments x every pacing from a tie-free delay menu x every buy@b/sell@s or idle strategy x N in {1,2,3} concurrent members (ordered assignments) runs the real backtest machinery; completeness/order of the engine's market log, isolation as a differential oracle (member in batch == same member alone: fills, positions, balances, realised PnL) and the own-summary rule are checked.",
+          "Every dataset pattern of n<=3 (quick) / <=4 (thorough) events over 2 instruments x every pacing from a tie-free delay menu x every buy@b/sell@s or idle strategy x N in {1,2,3} concurrent members (ordered assignments) runs the real backtest machinery; completeness/order of the engine's market log, isolation as a differential oracle (member in batch == same member alone: fills, positions, balances, realised PnL) and the own-summary rule are checked. Hardened: per-member pacing with coarse fill times, 6-hour stalls, Reconnecting entries and dataset shapes (equal / earlier timestamps, duplicates), lengths to 2^16 (2^17), batches of up to 64 members.",
           "OS-thread interleavings of a multi-thread runtime are not enumerated (auxiliary smoke run only, reported separately); timestamps excluded (HistoricalClock reads the wall clock); one mocked exchange.",
           "DESIGN.md §3 C20"),
   "C09": ("model_checking", "E-BFS",
@@ -106,7 +106,7 @@ CLAIMED = {
           "DESIGN.md §3 C09"),
   "C14": ("model_checking", "E-BFS",
           "explicit-state BFS to fixpoint over the real Engine::process",
-          "All reachable connectivity states for 1, 2 and 3 exchanges are enumerated to fixpoint; every transition is an execution of the real Engine::process compared with the statement's flag model (global iff all links healthy, exactly the addressed link flips, on_disconnect exactly once per notice, audit output).",
+          "All reachable connectivity states for 1, 2 and 3 exchanges are enumerated to fixpoint; every transition is an execution of the real Engine::process compared with the statement's flag model (global iff all links healthy, exactly the addressed link flips, on_disconnect exactly once per notice, audit output). Hardened: exchange sets whose id order differs from name order, exchanges without execution link, 17 event kinds, a persistent layer on one engine.",
           "Connectivity behaviour depends only on the connectivity flags (state is rebuilt from them per transition); at most 3 exchanges.",
           "DESIGN.md §3 C14"),
 }
